@@ -174,6 +174,12 @@ namespace Pistache::Http::Mime
             } while (false);
         }
 
+        // a longer name that merely starts with a known one ("json-patch") is an
+        // extension subtype
+        if (sub != Subtype::Ext && sub != Subtype::Vendor && !cursor.eof()
+            && cursor.current() != ';' && cursor.current() != '+' && cursor.current() != ' ')
+            sub = Subtype::Ext;
+
         if (sub == Subtype::Ext || sub == Subtype::Vendor)
         {
             (void)match_until({ ';', '+' }, cursor);
@@ -209,6 +215,10 @@ namespace Pistache::Http::Mime
                 suffix = Suffix::Ext;
             } while (false);
 
+            // likewise "json-seq" is not "json"
+            if (suffix != Suffix::Ext && !cursor.eof() && cursor.current() != ';' && cursor.current() != ' ')
+                suffix = Suffix::Ext;
+
             if (suffix == Suffix::Ext)
             {
                 (void)match_until({ ';', '+' }, cursor);
@@ -231,8 +241,9 @@ namespace Pistache::Http::Mime
                 cursor.advance(1);
             }
 
-            else if (match_literal('q', cursor))
+            else if ((cursor.current() == 'q' || cursor.current() == 'Q') && cursor.next() == '=')
             {
+                cursor.advance(1);
 
                 if (cursor.eof())
                     raise("Invalid quality factor");
